@@ -488,6 +488,17 @@ func (c *Collection) geoSparseInner(
 	iter func(o *object.Object) (match, ok bool),
 ) bool {
 	if sparse > 0 {
+		// Nothing can come out of a cell that holds no object. Without this
+		// test SPARSE n runs 4^n index searches whatever the collection
+		// holds (SPARSE 16: minutes, with the collection locked).
+		empty := true
+		c.geoSearch(rect, func(*object.Object) bool {
+			empty = false
+			return false
+		})
+		if empty {
+			return true
+		}
 		w := rect.Max.X - rect.Min.X
 		h := rect.Max.Y - rect.Min.Y
 		quads := [4]geometry.Rect{
